@@ -65,6 +65,10 @@ func (f *Func) callGraph(args *argBuilder) (
 	// we already know about. These are tracked as "vertexI".
 	var convs []*Func
 	vertexI, convs = args.graph(log, &g, vertexRoot)
+	if args.genErr != nil {
+		err = args.genErr
+		return
+	}
 
 	// Next, for all values we may have or produce, we need to create
 	// the vertices for the type-only value. This lets us say, for example,
